@@ -1125,9 +1125,11 @@ func (m *Model) SeekTime(name string, t, now time.Time) {
 		}
 		d.Seek = true // from here on this delivery's state was decided by a seek
 		if e == 0 {
-			if d.State != Acked || !d.PrunedMay {
-				d.State, d.Fuzzy = Limbo, true
-			}
+			// within the clock margin of its retention end: the seek may or may not
+			// have touched it. That also holds for an acknowledged delivery that a
+			// prune job may have removed: if it was NOT removed and the seek revived
+			// it, it is outstanding again and holds back its same-key successors.
+			d.State, d.Fuzzy = Limbo, true
 			continue
 		}
 		switch m.pubCmp(d, t) {
